@@ -593,9 +593,52 @@ func ruleA12Copy(r *Run, p *Prog) {
 				}
 			}
 		})
+		// … and on every path: an early return (for a "disabled" receiver, say) that leaves a field
+		// behind is a different logger once Level()/With() re-enable it. Edges on which the
+		// receiver's own field is nil/empty need no copy.
+		skipsOnSomePath := false
+		var skipPath []*ssa.BasicBlock
+		if stored && fromSame {
+			storeTo := func(in ssa.Instruction) bool {
+				switch x := in.(type) {
+				case *ssa.Store:
+					fa, ok := x.Addr.(*ssa.FieldAddr)
+					return ok && fieldVar(fa) == fld && resultAllocs[fa.X]
+				case *ssa.Call:
+					if builtinName(&x.Call) == "copy" && len(x.Call.Args) == 2 {
+						dfv, dbase := loadedField(x.Call.Args[0])
+						return dfv == fld && resultAllocs[dbase]
+					}
+				}
+				return false
+			}
+			emptyEdge := func(b *ssa.BasicBlock, si int) bool {
+				iff, ok := b.Instrs[len(b.Instrs)-1].(*ssa.If)
+				if !ok {
+					return true
+				}
+				c, ok := cmpOf(CondEdge{iff, si == 0})
+				if !ok {
+					return true
+				}
+				isF := func(v ssa.Value) bool { return isFieldOfParam(v, f, 0, fld.Name()) }
+				if isF(c.X) && isNilConst(c.Y) && c.Op == token.EQL {
+					return false
+				}
+				if lc, isC := c.X.(*ssa.Call); isC && builtinName(&lc.Call) == "len" && isF(lc.Call.Args[0]) {
+					if n, isN := constInt(c.Y); isN && ((c.Op == token.EQL && n == 0) || (c.Op == token.LEQ && n == 0) || (c.Op == token.LSS && n <= 1)) {
+						return false
+					}
+				}
+				return true
+			}
+			skipsOnSomePath, skipPath = pathExists(f, nil, isReturn, storeTo, emptyEdge)
+		}
 		var ok bool
 		var d string
 		switch {
+		case stored && fromSame && skipsOnSomePath:
+			ok, d = false, "Output() carries field "+fld.Name()+" over on some paths only: a path returns the new logger without it"+pathHint(p, skipPath)
 		case stored && fromSame:
 			ok, d = true, "copied from the receiver's "+fld.Name()
 		case ctorSets[fld.Name()] && !stored:
